@@ -98,17 +98,17 @@ func isOperatorChar(c int) bool {
 func isStopChar(c int) bool {
 	switch c {
 	case -1, '{', '}', '[', ']', '(', ')', ',', '"', '\'',
-		' ', '\t', '\n', '\r':
+		' ', '\t', '\n', '\r', '\v', '\f':
 		return true
 	default:
 		return false
 	}
 }
 
-// Is this character whitespace?
+// Is this character whitespace? Ion whitespace is U+0009 through U+000D plus space.
 func isWhitespace(c int) bool {
 	switch c {
-	case ' ', '\t', '\n', '\r':
+	case ' ', '\t', '\n', '\r', '\v', '\f':
 		return true
 	}
 	return false
